@@ -19,6 +19,11 @@ def special_fq():
 
 def pool(ty, rnd, nrand):
     """list of numeric values of tower type ty: structured specials + randoms"""
+    if ty.startswith('int:'):
+        return [int(x, 0) for x in ty[4:].split(',')]
+    if ty == 'u128':
+        return [0, 1, 2, 3, 4, 5, 7, 8, 9, 255, 256, (1 << 64) - 1, 1 << 64, (1 << 64) + 1, 1 << 127, (1 << 128) - 1,
+                0x600000000058F98A, 0x2400000000215d941, 0xd8000000019062ed0000b98b0cb27659] + [rnd.getrandbits(rnd.choice([8, 64, 65, 127, 128])) for _ in range(nrand)]
     if ty == 'Fq':
         return special_fq() + [rnd.randrange(Q) for _ in range(nrand)]
     out = [S.tw_zero(ty), S.tw_one(ty)]
@@ -43,6 +48,10 @@ def pool(ty, rnd, nrand):
 def enc(ty, v):
     if ty == 'bool':
         return bytes([1 if v else 0])
+    if ty.startswith('int:'):
+        return int(v).to_bytes(8, 'big')
+    if ty == 'u128':
+        return int(v).to_bytes(16, 'big')
     return S.tw_enc(ty, v)
 
 def dec_result(retty, parts):
@@ -75,6 +84,9 @@ def search_spec(drv, spec, seed, nrand=24, max_cases=400):
         cases = cases[:max_cases // 2]
         for _ in range(max_cases // 2):
             cases.append([rnd.choice(p) for p in pools])
+    if getattr(spec, 'search_max', None):
+        rnd.shuffle(cases)
+        cases = cases[:spec.search_max]
     if spec.pre_num:
         cases = [spec.pre_num(S.NUM, *c) for c in cases]
     reqs = [(fn, [enc(t, v) for t, v in zip(argtys, c)]) for c in cases]
@@ -86,11 +98,11 @@ def search_spec(drv, spec, seed, nrand=24, max_cases=400):
             continue
         if r[0] != 'ok':
             return len(cases), dict(fid=spec.fid, hook=fn, args=[a.hex() for a in rq[1]], expected=repr_val(retty, exp),
-                                    observed=' '.join(r), kind='panic-or-unknown')
+                                    observed=' '.join(r), failure='panic-or-unknown')
         got = dec_result(retty, r[1])
         if got != exp:
             return len(cases), dict(fid=spec.fid, hook=fn, args=[a.hex() for a in rq[1]], expected=repr_val(retty, exp),
-                                    observed=repr_val(retty, got), kind='wrong-result')
+                                    observed=repr_val(retty, got), failure='wrong-result')
     return len(cases), None
 
 def repr_val(retty, v):
@@ -103,3 +115,18 @@ def repr_val(retty, v):
     if v is None:
         return 'None'
     return S.tw_enc(retty, v).hex()
+
+def check_case(drv, spec, case):
+    """run one concrete input tuple (numeric tower values) on the real function; returns violation dict or None"""
+    fn, argtys, retty = spec.hook
+    if spec.pre_num:
+        case = spec.pre_num(S.NUM, *case)
+    args = [enc(t, v) for t, v in zip(argtys, case)]
+    r = drv.call(fn, *args)
+    exp = spec.oracle(S.NUM, *case)
+    if r[0] != 'ok':
+        return dict(fid=spec.fid, hook=fn, args=[a.hex() for a in args], expected=repr_val(retty, exp), observed=' '.join(r), failure='panic-or-unknown')
+    got = dec_result(retty, r[1])
+    if got != exp:
+        return dict(fid=spec.fid, hook=fn, args=[a.hex() for a in args], expected=repr_val(retty, exp), observed=repr_val(retty, got), failure='wrong-result')
+    return None
